@@ -102,6 +102,12 @@ def build_ops(names, scen, seed):  # noqa: C901
     optree.register_pytree_node(T['R'], _fl, _un, namespace=NSC)
     r1, r2, r3 = T['R'](), T['R'](), T['R']()
     c['rtree'] = ({'a': r1, 'b': [U.Leaf('y')]}, [r2, (r3,)])
+    # trees that are deep but legal on their own (600 and 450 levels), with a single yield point at the very bottom (the custom flatten of P)
+    for name_, depth_ in (('deep', 600), ('deep2', 450)):
+        t_ = [T['P'](), U.Leaf(name_)]
+        for _ in range(depth_):
+            t_ = [t_]
+        c[name_] = t_
     c['robjs'] = (r1, r2, r3)
     q1, q2, q3 = T['Q'](), T['Q'](), T['Q']()
     c['qtree'] = [q1, {'a': q2, 'b': [U.Leaf('z')]}, (q3,)]
@@ -150,6 +156,10 @@ def build_ops(names, scen, seed):  # noqa: C901
         'reg-same-meta-b': lambda: reg(T['TC'], NSC, 'same-meta', _fl2),
         'reg-q': lambda: reg(T['Q'], NSC),
         'flatten-q': lambda: flatten_q(),
+        'deep-flatten': lambda: canon(optree.tree_flatten(c['deep'], namespace=NSC)),
+        'deep-leaves': lambda: canon(optree.tree_leaves(c['deep2'], namespace=NSC)),
+        'deep-structure': lambda: canon(optree.tree_structure(c['deep'], namespace=NSC)),
+        'deep-map': lambda: canon(optree.tree_map(lambda x, y: x, c['deep2'], c['deep2'], namespace=NSC)),
         'unreg-r': lambda: unreg(T['R'], NSC),
         'flatten-r': lambda: flatten_q('rtree', 'robjs', 'flatten-r'),
         'consume-a': consume('a'),
@@ -196,8 +206,10 @@ def cleanup(c):
                 pass
 
 
+DEEP = ('deep-flatten', 'deep-leaves', 'deep-structure', 'deep-map')
 PURE = ('flatten', 'flatten_with_path', 'iter', 'map', 'map-leaves', 'traverse', 'transform', 'from_collection', 'paths-children', 'unflatten', 'eq', 'hash', 'repr', 'pickle', 'accessors', 'compose', 'flatten_up_to', 'classify')
 REGS = ('reg-nt', 'reg-meta', 'unreg')
+COMPARED = PURE + DEEP  # operations whose result is compared with their solo result
 
 
 def all_pairs():
@@ -206,6 +218,10 @@ def all_pairs():
         pairs.append((a, b))
     for a in ('hash', 'repr', 'flatten', 'unflatten', 'accessors', 'eq'):
         pairs.append((a, a))
+    # deep-but-legal trees in two threads at once: whatever the engine counts per recursion must be per call, not per process
+    for a, b in itertools.combinations_with_replacement(DEEP, 2):
+        pairs.append((a, b))
+    pairs += [('deep-flatten', 'flatten'), ('deep-leaves', 'map'), ('deep-structure', 'reg-nt')]
     for r in REGS:
         for a in ('flatten', 'flatten_with_path', 'iter', 'unflatten', 'map', 'pickle', 'eq', 'flatten_up_to', 'classify'):
             pairs.append((r, a))
@@ -235,7 +251,7 @@ def check_schedule(sink, s, c, names, solo, ident):  # noqa: C901
     jid = dict(ident, schedule=s.taken[:40], switches=switches)
     for i, n in enumerate(names):
         r = s.results[i]
-        if n in PURE:
+        if n in COMPARED:
             ok = r is not None and r[0] == 'ok' and r[1] == solo[i]
             sink.check(ok, f'result-differs/{n}/with/{"+".join(x for j, x in enumerate(names) if j != i)}', 'every operation returns exactly what it returns when run alone', dict(jid, op=n),
                        lambda: dict(got=repr(r)[:400], solo=repr(solo[i])[:400], trace=s.trace[:60]))
@@ -346,7 +362,7 @@ def journal_run(sink, case, sub_start, progress):
         try:
             solo = [None] * len(names)
             for i, n in enumerate(names):
-                if n in PURE:
+                if n in COMPARED:
                     solo[i] = ops[i]()  # solo result in this very context (operations are pure)
             if c['shared_iter'] is not None:
                 c['shared_iter'] = optree.tree_iter(c['tree'], is_leaf=c15.pred, none_is_leaf=False, namespace=c['ns'])
